@@ -104,7 +104,9 @@ class Init:
         else:
             point, di = rng.randrange(SPACE), rng.randrange(len(DATES))
         # long files: the unrelated content / the existing section sits behind many kilobytes of other tools' settings
-        return {"point": point, "date": di, "vcs": rng.choice([None, None, "git"]), "ops": [{"op": "init-sequence"}],
+        # vcs: none at all / the project's own repository / only an *enclosing* repository (the project is a new directory
+        # inside some other working tree - a mono-repo, a dotfiles repository - whose tags are none of its business)
+        return {"point": point, "date": di, "vcs": rng.choice([None, None, "git", "enclosing"]), "ops": [{"op": "init-sequence"}],
                 "pad": rng.choice([0, 0, 0, 0, 9000, 70000]),
                 # how an existing section is written: as `init` writes it, uniformly indented (legal in both syntaxes),
                 # `key=value` without blanks, or (TOML) with quoted keys
@@ -162,7 +164,17 @@ class Init:
         if case.get("vcs") == "git":
             import os
             os.mkdir(os.path.join(d, ".git"))
-        shim = (lambda: fakevcs.VcsShim(fakevcs.FakeRepo("git", remote=False))) if case.get("vcs") else (lambda: None)
+        def outer_repo():
+            repo = fakevcs.FakeRepo("git", remote=False)
+            for t in ("%d.1002" % year, "%d.1005-beta" % (year + 3), "v1.2.3"):
+                repo.tags[t] = repo.head_commit()
+            return fakevcs.VcsShim(repo)
+
+        if case.get("vcs") == "enclosing":
+            shim = outer_repo
+            ctx.probe("enclosing_repository_only")
+        else:
+            shim = (lambda: fakevcs.VcsShim(fakevcs.FakeRepo("git", remote=False))) if case.get("vcs") else (lambda: None)
         today = now.date()
         key = tuple(sorted(layout.items()))
         ctx.state((tuple(k for k in layout.values()),))
